@@ -186,15 +186,21 @@ class IncSolver:
             self.s.set("rlimit", self.RL_FEAS)
             self.set_timeout(5000)
         else:
-            self.s.set("rlimit", 0)
-            self.set_timeout(timeout_ms)
+            # obligations: a *resource* limit decides (about 3x what the most expensive obligation
+            # of the pinned tree needs), the wall-clock limit is only a safety net -- verdicts must
+            # not depend on how busy the machine is
+            self.s.set("rlimit", RL_OB_INC)
+            self.set_timeout(WALL_SAFETY_MS)
         t = time.time()
+        r0 = _rl(self.s) if _RLSTAT else 0
         r = self.s.check(*assumptions)
         dt = time.time() - t
+        if _RLSTAT and timeout_ms > 500:
+            _rl_note("inc", _rl(self.s) - r0, r, dt)
         self.time += dt
         self.nchecks += 1
         if timeout_ms > 500 and r != z3.unsat:
-            SLOW[0] -= dt
+            SLOW[0] -= 1
         return r
 
 
@@ -278,12 +284,34 @@ class Result:
         self.validated = None
 
 
+_RLSTAT = bool(os.environ.get("PYVC_RL_STATS"))
+
+
+def _rl(solver):
+    try:
+        st = solver.statistics()
+        for k in st.keys():
+            if k == "rlimit count":
+                return st.get_key_value(k)
+    except Exception:
+        pass
+    return 0
+
+
+def _rl_note(kind, units, r, dt):
+    with open("/tmp/pyvc_rl_stats.txt", "a") as f:
+        f.write(f"{kind}\t{units}\t{r}\t{dt:.3f}\n")
+
+
 MAX_POOL = 400
 HARD_HITS = 0
-# seconds one task may still spend on queries that do *not* come back unsat (a proof that succeeds
+# number of queries one task may still spend that do *not* come back unsat (a proof that succeeds
 # does so in milliseconds; a mutated function would otherwise burn every time-out of every open
 # obligation in turn).  Reset by verify_contract.
-SLOW = [45.0]
+SLOW = [12]
+RL_OB_INC = 9_000_000            # incremental obligation check (largest passing one on the pinned tree: 2.7M)
+RL_OB_EMATCH = 400_000_000       # standalone E-matching query (largest passing one: 125M)
+WALL_SAFETY_MS = 300_000
 
 
 def instantiate(facts, qfacts, bounds, extra, rounds=3, max_pool=MAX_POOL, deadline=None):
@@ -439,8 +467,8 @@ def check_ematch(facts, qfacts, bounds, extra, timeout_ms=10000):
     s.set("auto_config", False)
     s.set("smt.mbqi", False)
     s.set("smt.ematching", True)
-    s.set("timeout", timeout_ms)
-    s.set("rlimit", int(timeout_ms) * 3000)
+    s.set("timeout", WALL_SAFETY_MS)
+    s.set("rlimit", RL_OB_EMATCH if timeout_ms <= 10000 else 4 * RL_OB_EMATCH)
     s.add(*facts)
     for q in qfacts:
         s.add(q.quant())
@@ -453,6 +481,8 @@ def check_ematch(facts, qfacts, bounds, extra, timeout_ms=10000):
     t = time.time()
     r = s.check()
     dt = time.time() - t
+    if _RLSTAT:
+        _rl_note("ematch", _rl(s), r, dt)
     n = len(facts) + len(qfacts) + len(seen) + len(extra)
     if r == z3.unsat:
         return Result("unsat", None, n, dt, backend="z3-ematch")
@@ -475,7 +505,7 @@ def prove(snapshot, goal, timeout_ms=10000, rounds=3, use_cvc5=False, validate=T
     r = check_ematch(facts, qfacts, bounds, [neg], timeout_ms)
     if r.status in ("unsat", "sat"):
         return r
-    SLOW[0] -= time.time() - t_start
+    SLOW[0] -= 1
     if SLOW[0] <= 0:
         r.reason = "slow-query budget of the task used up"
         return r
@@ -504,7 +534,7 @@ def prove(snapshot, goal, timeout_ms=10000, rounds=3, use_cvc5=False, validate=T
     r = last
     r.time_s += t_em
     if r.status != "unsat":
-        SLOW[0] -= time.time() - t_start
+        SLOW[0] -= 1
     if r.status == "unknown" and use_cvc5:
         r2 = check_cvc5(ground, timeout_s=max(10, timeout_ms // 1000))
         if r2.status == "unsat":
